@@ -133,6 +133,14 @@ def main():
         else:
             entries.append((nm, int(ms[0])))
 
+    # LINCOM without its count: "assume <n> has been omitted" -- gated or not
+    body = function_body(parse, r"static gd_entry_t \*_GD_ParseLincom\(") or ""
+    m = re.search(r"if \(\*ptr != '\\0'( && GD_PVERS_GE\(\*p, (\d+)\))?\) \{\s*E->EN\(lincom,n_fields\) = \(n_cols - 2\) / 3;", body)
+    if not m:
+        problems.append("optional LINCOM count: pattern not found in _GD_ParseLincom")
+    else:
+        entries.append(("S_LINCOM_COUNT_OPTIONAL", int(m.group(2)) if m.group(2) else 0))
+
     # reserved names (name.c)
     body = function_body(name, r"int _GD_ValidateField\(") or ""
     if not body:
